@@ -6,6 +6,7 @@ import (
 	"errors"
 	"io"
 	"sync"
+	"time"
 
 	"github.com/buchgr/bazel-remote/v2/cache"
 )
@@ -26,6 +27,7 @@ type FakeProxy struct {
 	Gets   []string
 	Conts  []string
 	Open   int // readers handed out by Get and not yet closed
+	Delay  time.Duration // latency of Contains (a real backend is never instantaneous)
 }
 
 func NewFakeProxy() *FakeProxy {
@@ -120,6 +122,9 @@ func (p *FakeProxy) Get(ctx context.Context, kind cache.EntryKind, hash string, 
 
 func (p *FakeProxy) Contains(ctx context.Context, kind cache.EntryKind, hash string, size int64) (bool, int64) {
 	k := cache.LookupKey(kind, hash)
+	if p.Delay > 0 {
+		time.Sleep(p.Delay)
+	}
 	p.mu.Lock()
 	defer p.mu.Unlock()
 	p.Conts = append(p.Conts, k)
@@ -156,4 +161,11 @@ func (p *FakeProxy) OpenReaders() int {
 	p.mu.Lock()
 	defer p.mu.Unlock()
 	return p.Open
+}
+
+// ContainsCalls returns how many Contains calls the backend has received.
+func (p *FakeProxy) ContainsCalls() int {
+	p.mu.Lock()
+	defer p.mu.Unlock()
+	return len(p.Conts)
 }
